@@ -4,6 +4,7 @@ import (
 	"fmt"
 	"go/ast"
 	"go/types"
+	"os"
 	"sort"
 	"strings"
 
@@ -83,6 +84,17 @@ func DumpIR(c *core.Ctx, dialect, fn string) {
 			continue
 		}
 		st.finish(info.fd.End())
+		if os.Getenv("IRALL") != "" {
+			var ops []string
+			for _, in := range st.instrs {
+				o := strings.TrimPrefix(in.op, "_OP_")
+				if in.arg != "" {
+					o += "'" + in.arg + "'"
+				}
+				ops = append(ops, o)
+			}
+			fmt.Printf("path %d: %s\n", i, strings.Join(ops, " "))
+		}
 		if len(st.viol) == 0 {
 			continue
 		}
